@@ -123,6 +123,31 @@ func spawnLoop(i int) ([]val.V, val.V) {
 	return box.ParseForms(src), val.L(val.I(base+3), val.I(base+2), val.I(base+1), val.I(base))
 }
 
+// spawnMap: functions called by builtins (map, apply, swap!) start futures, or return closures inside collections,
+// that read the function's parameter after the call has returned
+func spawnMap(i, kind int) ([]val.V, val.V) {
+	p := fmt.Sprintf("t%d_", i)
+	base := 100 * (i + 1)
+	var src string
+	switch kind % 3 {
+	case 0:
+		src = fmt.Sprintf("(map deref (map (fn (x) (future (do (sleep 3) (+ %d x)))) [1 2 3]))", base)
+	case 1:
+		src = fmt.Sprintf("(def %scells (map (fn (x) (list (fn () (+ %d x)))) [1 2 3])) (sleep 2) (map (fn (c) ((first c))) %scells)", p, base, p)
+	default:
+		src = fmt.Sprintf("(def %sat (atom (list))) (map (fn (x) (swap! %sat (fn (old y) (cons (future (do (sleep 3) (+ %d y))) old)) x)) [3 2 1]) (map deref (deref %sat))", p, p, base, p)
+	}
+	return box.ParseForms(src), val.L(val.I(base+1), val.I(base+2), val.I(base+3))
+}
+
+// manyFutures: k worker futures wait for a flag that only a future started after them raises
+func manyFutures(i, k int) ([]val.V, val.V) {
+	p := fmt.Sprintf("t%d_", i)
+	src := fmt.Sprintf("(def %swait (fn (a) (if @a true (do (sleep 1) (%swait a))))) (def %sflag (atom false)) "+
+		"(def %sws (map (fn (j) (future (do (%swait %sflag) j))) (range 0 %d))) (deref (future (reset! %sflag true))) (reduce + 0 (map deref %sws))", p, p, p, p, p, p, k, p, p)
+	return box.ParseForms(src), val.I(k * (k - 1) / 2)
+}
+
 // deepRec: a non-tail recursion of the given depth that meets the other deep recursions at its bottom
 // ((rv!) is a harness builtin: a rendezvous with a short timeout), directly or inside a future
 func deepRec(i, depth int, inFuture bool) ([]val.V, val.V) {
@@ -154,6 +179,20 @@ func genCase(t *rapid.T) Case {
 		return c
 	}
 	for i := 0; i < n; i++ {
+		if gen.Chance(t, "spawnmap", 10) {
+			forms, want := spawnMap(i, gen.Uniform(t, "spawnmapkind", 3))
+			c.Progs = append(c.Progs, forms)
+			c.Std = append(c.Std, true)
+			c.Expect[i] = want
+			continue
+		}
+		if gen.Chance(t, "manyfutures", 12) {
+			forms, want := manyFutures(i, []int{5, 40}[gen.Uniform(t, "nworkers", 2)])
+			c.Progs = append(c.Progs, forms)
+			c.Std = append(c.Std, true)
+			c.Expect[i] = want
+			continue
+		}
 		if gen.Uniform(t, "spawn", 8) == 0 {
 			forms, want := spawnLoop(i)
 			c.Progs = append(c.Progs, forms)
@@ -298,7 +337,7 @@ func hasGensymResult(o outcome) bool { return false }
 
 func check(c Case) pbt.Verdict {
 	box.Silence()
-	ctx, cancel := context.WithTimeout(context.Background(), 60*time.Second)
+	ctx, cancel := context.WithTimeout(context.Background(), 25*time.Second)
 	defer cancel()
 	n := len(c.Progs)
 	// generated programs must terminate: the reference interpreter (with fuel) screens them, and its
@@ -418,8 +457,8 @@ func check(c Case) pbt.Verdict {
 	go func() { pwg.Wait(); close(stop); wg.Wait(); close(done) }()
 	select {
 	case <-done:
-	case <-time.After(60 * time.Second):
-		return pbt.Failf("hang", "the concurrent run did not finish within 60 s")
+	case <-time.After(40 * time.Second):
+		return pbt.Failf("hang", "the concurrent run did not finish within 40 s")
 	}
 	if firstBad != "" {
 		sig := "solo-vs-concurrent-differ"
